@@ -188,6 +188,10 @@ func (x *Exec) contractWrites(c *Contract, w *loopWrites) {
 			w.pref = append(w.pref, it[6:])
 			continue
 		}
+		if len(it) > 6 && it[:6] == "owned " {
+			w.pref = append(w.pref, x.ownedClasses(trim(it[6:]), c)...)
+			continue
+		}
 		// location items: class unknown statically
 		if cl, ok := c.Opts["modclasses"]; ok {
 			_ = cl
